@@ -42,6 +42,7 @@ type AssertFail struct {
 }
 
 type Exec struct {
+	mapPkg string
 	vfsTemp int
 	marshalled []Value
 	gshadow map[*ssa.Global]*Cell
@@ -1287,6 +1288,28 @@ type iterVal struct {
 	pos     int
 }
 
+// mapSiteCounts: with vMapOrderSiteIn only the range statements of functions of one package
+// (prefix) are numbered as sites
+func (x *Exec) mapSiteCounts() bool {
+	if x.mapPkg == "" {
+		return true
+	}
+	if len(x.stack) == 0 {
+		return false
+	}
+	fn := x.stack[len(x.stack)-1]
+	for fn.Parent() != nil {
+		fn = fn.Parent()
+	}
+	if fn.Pkg == nil {
+		if o := fn.Origin(); o != nil && o.Pkg != nil {
+			return strings.HasPrefix(o.Pkg.Pkg.Path(), x.mapPkg)
+		}
+		return false
+	}
+	return strings.HasPrefix(fn.Pkg.Pkg.Path(), x.mapPkg)
+}
+
 func (x *Exec) rangeOver(c Value) Value {
 	switch m := c.(type) {
 	case *MapVal:
@@ -1296,7 +1319,7 @@ func (x *Exec) rangeOver(c Value) Value {
 			it.entries = make([]MapEntry, n)
 			copy(it.entries, m.M.E)
 			site := -1
-			if n > 1 {
+			if n > 1 && x.mapSiteCounts() {
 				site = x.mapSites
 				x.mapSites++
 			}
